@@ -634,6 +634,7 @@ func (mp metadataPartition) newPartition(cl *Client, kind partitionKind) *topicP
 			lastAckedOffset:     -1,
 		}
 		r.lingerFn = r.unlingerAndManuallyDrain
+		verifInitRecBuf(r)
 		p.records = r
 	case partitionKindShare:
 		p.shareCursor = &shareCursor{
